@@ -90,6 +90,7 @@ func (e *fnEnc) call(in ssa.Instruction, cc *ssa.CallCommon) []Term {
 				}
 			}
 			if inRepo {
+				e.nonNilArgs(callee, args, "true", shortKey(key), pos)
 				// no contract: results are unknown; the heap keys it may write
 				// are inferred from its code (and its callees') by type safety
 				preH := e.curHeap.clone()
@@ -202,6 +203,7 @@ func (e *fnEnc) call(in ssa.Instruction, cc *ssa.CallCommon) []Term {
 		guard := fmt.Sprintf("((_ is %s) %s)", c.Sym, f.S)
 		if cn == nil {
 			e.note("indirect call candidate without contract (result havocked, written heaps inferred): " + c.Key)
+			e.nonNilArgs(c.Fn, args, guard, shortKey(c.Key), pos)
 			continue
 		}
 		// captures
@@ -623,5 +625,27 @@ func (e *fnEnc) fmtSpecial(key string, cc *ssa.CallCommon, args []Term, res []Te
 			return "(or " + strings.Join(xs, " ") + ")"
 		}
 		e.assert(fmt.Sprintf("(=> %s (and (= (isNotFound %s) %s) (= (isSyntax %s) %s)))", e.curReach, res[0].S, or(nf), res[0].S, or(syn)))
+	}
+}
+
+// nonNilArgs: the implicit contract of an uncontracted repo function is that
+// its pointer parameters are not nil (its body is verified under that
+// assumption when it is swept); this is the caller's side of it.
+func (e *fnEnc) nonNilArgs(callee *ssa.Function, args []Term, guard, name string, pos token.Pos) {
+	if callee == nil || (e.con != nil && e.con.MayPanic) {
+		return
+	}
+	for i, p := range callee.Params {
+		if i >= len(args) {
+			break
+		}
+		if _, isPtr := p.Type().Underlying().(*types.Pointer); !isPtr || args[i].Sort != "Int" {
+			continue
+		}
+		g := e.curReach
+		if guard != "true" {
+			g = fmt.Sprintf("(and %s %s)", e.curReach, guard)
+		}
+		e.oblig("pre", name+":nonnil:"+p.Name(), nil, g, fmt.Sprintf("(not (= %s 0))", args[i].S), pos)
 	}
 }
